@@ -13,6 +13,9 @@ CLAIMED = {
     "C13": ("exploration", "DESIGN.md 4 (C13), 2.3", "seeded deterministic simulation: interleaved reader/slice/copy actors over one source under a seeded scheduler, per-actor reference model checked after every step on five backends",
             "Seeded scheduler picks the acting object at every step among up to 10 live readers, slices, nested slices and copies sharing one source (memory, file, slice of either, slice of slice); after every step every live actor's position and length must match its model; slice creation outcomes incl. wrap-around parameters and parent movement are checked. Sampling evidence, not proof.",
             "Trusts the per-actor reference model; independence is observed through Position()/Length() of every actor after every step plus the bytes each later read delivers."),
+    "C14": ("exploration", "DESIGN.md 4 (C14)", "seeded deterministic simulation: writer histories vs content model with guard zones; chunked stream-copy matrix over reader backends under short reads/writes and EINTR; FileWriter open-flag matrix checked on the durable bytes of the simulated disk",
+            "Three scenario families: (a) MemoryWriter inside ASan-poisoned, sentinel-filled guard zones and DynamicMemoryWriter, driven by seeded histories of writes, typed writes and seeks with boundary/wrap arguments against a content model, plus typed write->typed read inverse and size-prefix limits 127/128, 255/256, 32767/32768, 65535/65536; (b) Writer::Write<Chunk>(Reader&) for nine chunk sizes x source lengths around chunk multiples x start positions x four reader backends x memory/file destinations; (c) all 16 open-flag subsets x {exists, absent} with the disk inspected after close. Sampling evidence, not proof.",
+            "Trusts the content model in sim/scen/writers.cpp; durable content when neither Truncate nor Append is given is deliberately not asserted (the flags do not say)."),
 }
 
 NOT_APPLICABLE = {
